@@ -391,6 +391,33 @@ Proof.
   tauto.
 Qed.
 
+(* capacity: the vote returns candidates only *)
+Lemma cap_go_tr_subset : forall eps E s p l al c a, (c, a) ∈ cap_go_tr eps E s p al l -> c ∈ l.
+Proof.
+  intros eps E s p l. induction l as [|c0 r IH]; intros al c a; simpl; [intros H; inversion H|].
+  destruct (jobs s !! t_job c0) as [j|]; [|intros H; right; eapply IH, H].
+  destruct (e_queues E !! j_queue j) as [q|]; [|intros H; right; eapply IH, H].
+  destruct (negb (qx_cap_known q)); [intros H; right; eapply IH, H|].
+  destruct (negb (intersects eps true (t_req c0) (t_init p))); [intros H; right; eapply IH, H|].
+  destruct (negb (less_equal eps (qx_cap_guar q) _ DZero)); [intros H; right; eapply IH, H|].
+  destruct (_ || _); [|intros H; right; eapply IH, H].
+  intros H. apply elem_of_cons in H as [[= -> ->]|H]; [left|right; eapply IH, H].
+Qed.
+
+Lemma find_task_elem l i c : find_task l i = Some c -> c ∈ l.
+Proof.
+  unfold find_task. destruct (filter _ l) as [|c' r] eqn:Hf; [discriminate|]. intros [= ->].
+  assert (H : c ∈ filter (fun c0 => bool_decide (t_id c0 = i) = true) l) by (rewrite Hf; left).
+  apply elem_of_list_filter in H. tauto.
+Qed.
+
+Lemma cap_vote_subset : forall eps E s p l c, c ∈ cap_vote eps E s p l -> c ∈ l.
+Proof.
+  intros eps E s p l c. unfold cap_vote, cap_go. destruct (cap_reclaimer_ok E s p); [|intros H; inversion H].
+  intros H. apply elem_of_list_fmap in H as ([c' a] & -> & H). simpl.
+  apply cap_go_tr_subset in H. apply elem_of_list_omap in H as (i & _ & H). eapply find_task_elem, H.
+Qed.
+
 (* every vote is a subset of the candidates *)
 Lemma vote_of_subset : forall eps E k s p l pk v c,
   vote_of eps E k s p l pk = Some v -> c ∈ v -> c ∈ l.
@@ -400,6 +427,7 @@ Proof.
   - destruct (is_reclaim k); [discriminate|]. intros [= <-] H. apply prio_vote_strict in H. tauto.
   - intros [= <-] H. apply conf_vote_spec in H. tauto.
   - destruct (is_reclaim k); [|discriminate]. intros [= <-]. apply prop_vote_subset.
+  - destruct (is_reclaim k); [|discriminate]. intros [= <-]. apply cap_vote_subset.
 Qed.
 
 (* ------------------------------------------------------------------ *)
@@ -569,6 +597,7 @@ Theorem victims_eligible : forall eps E k s p l c,
           (t_job c <> t_job p /\ jprio E (t_job c) < jprio E (t_job p)) \/
           (t_job c = t_job p /\ t_prio c < t_prio p)
       | KProp => is_reclaim k = true -> c ∈ prop_vote eps E s l
+      | KCap => is_reclaim k = true -> c ∈ cap_vote eps E s p l
       end.
 Proof.
   intros eps E k s p l c Hnd Hc. split; [eapply victims_subset, Hc|].
@@ -577,6 +606,8 @@ Proof.
   - eapply victim_gang_member; eauto.
   - intros Hr. eapply victim_prio_ok; eauto.
   - eapply victim_conf_ok; eauto.
+  - intros Hr. eapply (victim_in_every_vote eps E k s p l tier c pl); eauto.
+    rewrite Hk. simpl. rewrite Hr. reflexivity.
   - intros Hr. eapply (victim_in_every_vote eps E k s p l tier c pl); eauto.
     rewrite Hk. simpl. rewrite Hr. reflexivity.
 Qed.
@@ -617,7 +648,7 @@ Section Examples.
 
   (* tier walk: gang + conformance in one tier, preemptor of another (unknown-priority) job *)
   Let E0 : env :=
-    mkEnv [[mkPlug KConf true true; mkPlug KGang true true]] ∅ ∅ {[12%positive]} ∅ [].
+    mkEnv [[mkPlug KConf true true; mkPlug KGang true true]] ∅ ∅ {[12%positive]} ∅ [] [].
   Let pre0 : task :=
     mkTask 21%positive 2%positive 1%positive 1%positive 9 r1 r1 false true Pending None.
 
@@ -626,14 +657,15 @@ Section Examples.
 
   (* with t1 critical instead, the tier's agreement is empty and nobody is selected *)
   Let E1 : env :=
-    mkEnv [[mkPlug KConf true true; mkPlug KGang true true]] ∅ ∅ {[11%positive]} ∅ [].
+    mkEnv [[mkPlug KConf true true; mkPlug KGang true true]] ∅ ∅ {[11%positive]} ∅ [] [].
   Example ex_victims_none : victims 1 E1 AInter s0 pre0 [t1; t2; t3] = [].
   Proof. vm_compute. reflexivity. Qed.
 
   (* proportion: queue 1 deserves 2000; its share is 3000; one victim brings it to 2000 <= deserved *)
   Let E2 : env :=
     mkEnv [[mkPlug KProp true true]] ∅ ∅ ∅
-          {[1%positive := mkQx true true true (mkRes 2000 2000 None) (mkRes 2000 2000 None) (mkRes 2000 2000 None)]} [].
+          {[1%positive := mkQx true true true (mkRes 2000 2000 None) (mkRes 2000 2000 None) (mkRes 2000 2000 None)
+                                  false empty_res empty_res empty_res]} [] [].
   Example ex_prop_vote : prop_vote 1 E2 s0 [t1; t2; t3] = [t1].
   Proof. vm_compute. reflexivity. Qed.
 End Examples.
